@@ -343,7 +343,8 @@ package dnssec
 //@   assert at return#6: lastret("github.com/miekg/dns.IsRRset")
 //@   assert at return#6: calls("middleware/resolver/dnssec.KeyTag") == 1
 //@   assert at return#6: sig.Algorithm == k.Algorithm && sig.Hdr.Class == k.Hdr.Class
-//@   assert at return#6: foldEq(sig.SignerName, k.Hdr.Name) && hdrOf(rrset[0]).Class == sig.Hdr.Class && hdrOf(rrset[0]).Rrtype == sig.TypeCovered && countLabel(hdrOf(rrset[0]).Name) >= int(sig.Labels) && foldEq(hdrOf(rrset[0]).Name, sig.Hdr.Name) && inZone(canon(hdrOf(rrset[0]).Name), canon(sig.SignerName))
+//@   assert at return#6: eqFoldA(sig.SignerName, k.Hdr.Name) && eqFoldA(hdrOf(rrset[0]).Name, sig.Hdr.Name)
+//@   assert at return#6: hdrOf(rrset[0]).Class == sig.Hdr.Class && hdrOf(rrset[0]).Rrtype == sig.TypeCovered && countLabel(hdrOf(rrset[0]).Name) >= int(sig.Labels) && inZone(canon(hdrOf(rrset[0]).Name), canon(sig.SignerName))
 //@   assert at call middleware/resolver/dnssec.KeyTag#1: arg0 == k && k.Protocol == 3 && k.Flags & 256 != 0 && lastret("github.com/miekg/dns.IsRRset")
 //@   assert at return#1: result != nil
 //@   assert at return#2: result != nil
@@ -552,6 +553,7 @@ package dnssec
 //@ func verifyOneSigWithWork
 //@   abstract
 //@   nosafety all pre
+//@   opaque middleware/resolver/dnssec.equalNameASCIIFold
 //@   loop 3 invariant work != nil ==> calls("(middleware/resolver/dnssec.SignatureWork).CheckDNSKEYCandidate") == calls("middleware/resolver/dnssec.runSignatureVerification") && calls("(middleware/resolver/dnssec.SignatureWork).CheckRRsetSignature") == calls("middleware/resolver/dnssec.runSignatureVerification")
 //@   assert at call middleware/resolver/dnssec.runSignatureVerification#1: arg0 == work && arg2 == sig && arg3 == set && (work != nil ==> calls("(middleware/resolver/dnssec.SignatureWork).CheckDNSKEYCandidate") == calls("middleware/resolver/dnssec.runSignatureVerification") + 1 && calls("(middleware/resolver/dnssec.SignatureWork).CheckRRsetSignature") == calls("middleware/resolver/dnssec.runSignatureVerification") + 1 && lastret("(middleware/resolver/dnssec.SignatureWork).CheckDNSKEYCandidate") == nil && lastret("(middleware/resolver/dnssec.SignatureWork).CheckRRsetSignature") == nil)
 //@   assert at call (middleware/resolver/dnssec.SignatureWork).CheckDNSKEYCandidate#1: arg1 == candidateUsed
@@ -606,3 +608,16 @@ package dnssec
 //@   assert at call middleware/resolver/dnssec.typesSet#1: arg0 == bitmap && len(arg1) == 2 && arg1[0] == qtype && arg1[1] == dns.TypeCNAME && calls("middleware/resolver/dnssec.typesSet") == 0
 //@   assert at return#1: result != nil && lastret("middleware/resolver/dnssec.typesSet#1")
 //@   assert at return#4: result == nil && !lastret("middleware/resolver/dnssec.typesSet#1")
+//@
+//@ # ---- C14 ("never more permissive than the reference library"): names are compared with ASCII case folding ONLY, like
+//@ # the library's octet comparison - not strings.EqualFold, whose Unicode simple folding equates U+212A KELVIN SIGN with
+//@ # "k" and would bind a signature to a key owned by a different name
+//@ spec foldcA(c uint8) uint8 := ite(c >= 'A' && c <= 'Z', c + 32, c)
+//@ pred eqFoldA(a string, b string) := len(a) == len(b) && forall i int :: {a[i]} {b[i]} 0 <= i && i < len(a) ==> foldcA(a[i]) == foldcA(b[i])
+//@ func equalNameASCIIFold
+//@   modifies nothing
+//@   ensures result ==> eqFoldA(a, b)
+//@   ensures eqFoldA(a, b) ==> result
+//@   loop 1 invariant 0 <= i && i <= len(a) && len(a) == len(b)
+//@   loop 1 invariant forall k int :: {a[k]} {b[k]} 0 <= k && k < i ==> foldcA(a[k]) == foldcA(b[k])
+//@   loop 1 decreases len(a) - i
